@@ -322,6 +322,12 @@ class Program:
 
     def resolve_named_const(self, name):
         """`const fixed::chars::B_R` -> parsed const tuple (by suffix match on the const items)."""
+        cache = self.__dict__.setdefault("_const_cache", {})
+        if name not in cache:
+            cache[name] = self._resolve_named_const(name)
+        return cache[name]
+
+    def _resolve_named_const(self, name):
         if name in self.consts:
             return self.consts[name]
         segs = split_path(name)
